@@ -3,8 +3,8 @@ Spec: server/AcceptDispatch.tla, invariant C02_Bound over all states incl. the w
 import srvflow
 
 INV = ["T_C02_Bound"]
-DESIGN = ["MC_core_quick.cfg", "MC_core_l1.cfg", "MC_core_w1.cfg", "MC_core_2l.cfg"]
-EDGES = ["MC_core_quick.cfg", "MC_core_l1.cfg", "MC_core_w1.cfg"]
+DESIGN = ["MC_core_quick.cfg", "MC_core_l1.cfg", "MC_core_w1.cfg", "MC_core_2l.cfg", "MC_cmd_quick.cfg"]
+EDGES = ["MC_core_quick.cfg", "MC_core_l1.cfg", "MC_core_w1.cfg", "MC_cmd_quick.cfg"]
 THOROUGH = ["MC_core_w3.cfg", "MC_core_l3.cfg", "MC_core_l4.cfg", "MC_core_w3l3.cfg"]
 NEGS = {"NEG_NoClearOnLimit.cfg": ["C02_Bound"]}
 
@@ -16,7 +16,7 @@ def nontrivial(s, run):
 
 def run(ctx):
     srvflow.run_check(
-        ctx, design=DESIGN, edge_cfgs=EDGES, negs=NEGS, invariants=INV, corpus=["server_core.ndjson"],
+        ctx, design=DESIGN, edge_cfgs=EDGES, negs=NEGS, invariants=INV, corpus=["server_core.ndjson", "server_cmd.ndjson", "server_cmd_sat.ndjson"],
         thorough_design=THOROUGH, nontrivial=nontrivial,
         rule="schedules = edge cover of the core AcceptDispatch configs + NEG counterexample + corpus (limits 1..4, workers "
              "1..3); at every recorded state queued+in-progress per worker (measured channel length + live service futures) "
